@@ -127,7 +127,7 @@ class Prop(PropBase):
             except Exception as e:
                 return {"err": err_name(e)}
 
-    def model_requests(self, case):
+    def model_requests(self, case, code_out):
         if case["op"] == "n":
             return [f"c18 next {case['N']}", f"c18 prev {case['N']}"]
         return [f"c18 prev {case['L']}"]
